@@ -75,6 +75,18 @@ theorem kept_only_if_documented (env : Env) (o : Obj) (h : decideObj env o = .ke
                   · simp [ht, pkgHash, ofOpt] at h; split at h <;> simp at h
         · right; right; left; exact ⟨path, lp, rfl, hl, by simpa using ho⟩
 
+/-- the same for the full decision including embedded fields: an embedded field keeps its name only if the type it is
+named after is predeclared, or that type's name is kept for a documented reason -/
+theorem ident_kept_only_if_documented (env : Env) (o : Obj) (emb : Embedded) (h : decideIdent env o emb = .keep) :
+    match emb with
+    | .no => Documented env o
+    | .unnamed => True
+    | .named n c p => Documented env { kind := .typeName, name := n, cls := c, pkgPath := p } := by
+  cases emb with
+  | no => exact kept_only_if_documented env o h
+  | unnamed => trivial
+  | named n c p => exact kept_only_if_documented env _ h
+
 /-- every flag appended for `-X` duplication has the `-X=` form, so it is never a bare flag name -/
 theorem xDuplicates_form (dup : Bytes → Option Bytes) (flags : List Tok) :
     ∀ a ∈ xDuplicates dup flags, ∃ d, a = bstr "-X=" ++ d := by
